@@ -236,12 +236,17 @@ def run_views(R, kind, cap, r, n_cases):
             arr = rand_array(r, sdt, (3, 2, 2)).transpose(1, 0, 2)
         else:
             arr = rand_array(r, sdt, (2,))
+        if sdt.itemsize > 1 and r.random() < 0.3:
+            # the same numbers held in the OTHER byte order (e.g. read from a big-endian file): a dtype that compares unequal to the
+            # native one although it has the same name, kind and width - it must be converted, not copied byte for byte
+            arr = arr.astype(sdt.newbyteorder("S"))
+            layout += "+swapped"
         nb = ddt.itemsize * arr.size
         if nb > cap:
             continue
         off = r.randrange(0, cap - nb + 1)
         b, before = mk_buffer(kind, cap, r)
-        ctx = {"kind": kind, "cap": cap, "prim": "update_from_nplike", "args": (off, str(sdt), str(ddt), layout, arr.tolist())}
+        ctx = {"kind": kind, "cap": cap, "prim": "update_from_nplike", "args": (off, str(arr.dtype), str(ddt), layout, arr.tolist())}
         ok, _ = call(R, "update_from_nplike." + layout, kind, lambda: b.update_from_nplike(off, ddt, arr), ctx)
         if not ok:
             continue
